@@ -449,3 +449,120 @@ Proof.
   - injection H as <-. exact Hs.
   - destruct (step s o) as [s1|] eqn:E; [|discriminate]. eapply IH; [|exact H]. eapply step_good; eassumption.
 Qed.
+
+(** ** independence: an operation addressed to one context (or to a map a getter returned)
+    changes no map of any other context *)
+Definition addressed_to (o : op) : option nat :=
+  match o with
+  | OAdd i _ _ _ | OSetTimeout i _ | OReadResp i _ => Some i
+  | _ => None
+  end.
+
+Lemma nth_error_In' {A} (l : list A) n x : nth_error l n = Some x -> In x l.
+Proof. apply nth_error_In. Qed.
+
+Lemma slot_of_target s o j a :
+  good s -> addressed_to o = Some j -> target s o = Some a ->
+  slot_addr s (SReq j) = Some a \/ slot_addr s (SResp j) = Some a
+  \/ slot_addr s (SEph j) = Some a \/ exists p, slot_addr s (SProto p) = Some a.
+Proof.
+  intros G Ha Ht. destruct o; cbn in Ha; try discriminate; injection Ha as ->; cbn [target] in Ht;
+    unfold ctx_at in Ht; cbn [slot_addr];
+    destruct (nth_error (ctxs s) j) as [c|] eqn:E; try discriminate; cbn in Ht; injection Ht as <-.
+  - destruct m; cbn [sel]; auto.
+    destruct (c_own_eph c) eqn:Eo; auto.
+    right; right; right. destruct (g_shared s G c (nth_error_In' _ _ _ E) Eo) as [p Hp]. eauto.
+  - auto.
+  - auto.
+Qed.
+
+Lemma other_context_unchanged s o s' i j ci :
+  good s -> step s o = Some s' -> addressed_to o = Some j -> i <> j ->
+  nth_error (ctxs s) i = Some ci ->
+  req_of s' ci = req_of s ci /\ resp_of s' ci = resp_of s ci
+  /\ (c_own_eph ci = true -> eph_of s' ci = eph_of s ci).
+Proof.
+  intros G H Ha Hij Hi.
+  destruct (step_frame s o s' H) as (_ & Hfr & _).
+  destruct (g_sep s G) as [Hb Hinj].
+  assert (Sreq : slot_addr s (SReq i) = Some (c_req ci)) by (cbn; now rewrite Hi).
+  assert (Sresp : slot_addr s (SResp i) = Some (c_resp ci)) by (cbn; now rewrite Hi).
+  assert (NotTarget : forall x, (x = SReq i \/ x = SResp i \/ x = SEph i) -> forall a,
+            slot_addr s x = Some a -> target s o <> Some a).
+  { intros x Hx a Hs Ht.
+    destruct (slot_of_target s o j a G Ha Ht) as [T|[T|[T|[p T]]]];
+      pose proof (Hinj _ _ _ Hs T) as E; destruct Hx as [-> | [-> | ->]]; inversion E; congruence. }
+  unfold req_of, resp_of, eph_of. repeat split.
+  - apply Hfr; [eapply Hb; exact Sreq | eapply NotTarget; [left; reflexivity | exact Sreq]].
+  - apply Hfr; [eapply Hb; exact Sresp | eapply NotTarget; [right; left; reflexivity | exact Sresp]].
+  - intros Ho. assert (Seph : slot_addr s (SEph i) = Some (c_eph ci)) by (cbn; now rewrite Hi, Ho).
+    apply Hfr; [eapply Hb; exact Seph | eapply NotTarget; [right; right; reflexivity | exact Seph]].
+Qed.
+
+(** maps handed out by getters are copies: writing into one changes no context at all *)
+Lemma user_map_write_changes_no_context s u k v s' i ci :
+  good s -> step s (OMutUser u k v) = Some s' -> nth_error (ctxs s) i = Some ci ->
+  req_of s' ci = req_of s ci /\ resp_of s' ci = resp_of s ci /\ eph_of s' ci = eph_of s ci.
+Proof.
+  intros G H Hi.
+  destruct (step_frame s _ s' H) as (_ & Hfr & _).
+  destruct (g_sep s G) as [Hb Hinj]. cbn [target] in Hfr.
+  assert (Sreq : slot_addr s (SReq i) = Some (c_req ci)) by (cbn; now rewrite Hi).
+  assert (Sresp : slot_addr s (SResp i) = Some (c_resp ci)) by (cbn; now rewrite Hi).
+  assert (NotUser : forall x a, slot_addr s x = Some a -> (forall j, x <> SUser j) ->
+            nth_error (umaps s) u <> Some a).
+  { intros x a Hs Hx Hu. apply (Hx u). eapply Hinj; [exact Hs | cbn; exact Hu]. }
+  unfold req_of, resp_of, eph_of. repeat split.
+  - apply Hfr; [eapply Hb; exact Sreq | eapply NotUser; [exact Sreq | intros j; discriminate]].
+  - apply Hfr; [eapply Hb; exact Sresp | eapply NotUser; [exact Sresp | intros j; discriminate]].
+  - destruct (c_own_eph ci) eqn:Eo.
+    + assert (Seph : slot_addr s (SEph i) = Some (c_eph ci)) by (cbn; now rewrite Hi, Eo).
+      apply Hfr; [eapply Hb; exact Seph | eapply NotUser; [exact Seph | intros j; discriminate]].
+    + destruct (g_shared s G ci (nth_error_In' _ _ _ Hi) Eo) as [p Hp].
+      assert (Sp : slot_addr s (SProto p) = Some (c_eph ci)) by exact Hp.
+      apply Hfr; [eapply Hb; exact Sp | eapply NotUser; [exact Sp | intros j; discriminate]].
+Qed.
+
+(** a getter returns a fresh map equal to the context's *)
+Lemma getter_returns_fresh_copy s i m s' ci :
+  good s -> step s (OGet i m) = Some s' -> nth_error (ctxs s) i = Some ci ->
+  exists a, umaps s' = umaps s ++ [a] /\ a = length (heap s) /\ get s' a = get s (sel ci m)
+            /\ (forall x b, slot_addr s x = Some b -> b <> a).
+Proof.
+  intros G H Hi. cbn [step] in H. unfold ctx_at in H. rewrite Hi in H. injection H as <-.
+  exists (length (heap s)). repeat split.
+  - unfold get. cbn. rewrite app_nth2 by lia. now rewrite Nat.sub_diag.
+  - intros x b Hs. destruct (g_sep s G) as [Hb _]. specialize (Hb x b Hs). lia.
+Qed.
+
+(** ** Clone: equal maps except a fresh op id; all three maps are new addresses *)
+Lemma clone_spec s i s' ci :
+  good s -> step s (OClone i) = Some s' -> nth_error (ctxs s) i = Some ci ->
+  exists c', ctxs s' = ctxs s ++ [c']
+    /\ req_of s' c' = assign (req_of s ci) opid_header (format_uint ((next_op s + 1) mod two64))
+    /\ resp_of s' c' = resp_of s ci
+    /\ eph_of s' c' = eph_of s ci
+    /\ c_own_eph c' = true
+    /\ next_op s' = (next_op s + 1) mod two64
+    /\ req_of s' ci = req_of s ci /\ resp_of s' ci = resp_of s ci /\ eph_of s' ci = eph_of s ci.
+Proof.
+  intros G H Hi. cbn [step] in H. unfold ctx_at in H. rewrite Hi in H. injection H as <-.
+  destruct (g_sep s G) as [Hb _].
+  assert (B1 : (c_req ci < length (heap s))%nat) by (apply (Hb (SReq i)); cbn; now rewrite Hi).
+  assert (B2 : (c_resp ci < length (heap s))%nat) by (apply (Hb (SResp i)); cbn; now rewrite Hi).
+  assert (B3 : (c_eph ci < length (heap s))%nat).
+  { destruct (c_own_eph ci) eqn:Eo.
+    - apply (Hb (SEph i)); cbn; now rewrite Hi, Eo.
+    - destruct (g_shared s G ci (nth_error_In' _ _ _ Hi) Eo) as [p Hp]. apply (Hb (SProto p)). exact Hp. }
+  eexists. split; [reflexivity|]. unfold req_of, resp_of, eph_of, get. cbn -[assign format_uint].
+  repeat split.
+  - rewrite <- !app_assoc. rewrite app_nth2 by lia. now rewrite Nat.sub_diag.
+  - rewrite <- app_assoc. rewrite app_nth2 by (rewrite app_length; simpl; lia).
+    rewrite app_length. simpl. now replace (length (heap s) + 1 - (length (heap s) + 1))%nat with 0%nat by lia.
+  - rewrite app_nth2 by (rewrite !app_length; simpl; lia).
+    rewrite !app_length. simpl.
+    now replace (length (heap s) + 1 + 1 - (length (heap s) + 1 + 1))%nat with 0%nat by lia.
+  - rewrite <- !app_assoc. now rewrite app_nth1 by lia.
+  - rewrite <- !app_assoc. now rewrite app_nth1 by lia.
+  - rewrite <- !app_assoc. now rewrite app_nth1 by lia.
+Qed.
